@@ -131,6 +131,12 @@ class Generator(SchemaVisitor[Any]):
                 if is_ellipsis(elem):
                     continue
                 elements.append(elem.__accept__(self, **kwargs))
+            if (schema.props.len is not Nil) and (len(elements) < schema.props.len):
+                padding = [None] * (schema.props.len - len(elements))
+                if is_ellipsis(schema.props.elements[-1]):
+                    elements = elements + padding
+                elif is_ellipsis(schema.props.elements[0]):
+                    elements = padding + elements
             return elements
 
         is_length_specified = False
